@@ -1268,8 +1268,14 @@ def create_href(href: str, base_href: Optional[str] = None) -> ET.Element:
         logging.warning("invalidly formatted href: %s", href)
     et = ET.Element("{DAV:}href")
     if base_href is not None:
-        href = urllib.parse.urljoin(ensure_trailing_slash(base_href), href)
-    et.text = urllib.parse.quote(href)
+        # Quote before joining: both operands are plain paths in which '#',
+        # '?' and ':' are ordinary characters, not URL delimiters.
+        et.text = urllib.parse.urljoin(
+            ensure_trailing_slash(urllib.parse.quote(base_href)),
+            urllib.parse.quote(href),
+        )
+    else:
+        et.text = urllib.parse.quote(href)
     return et
 
 
